@@ -333,20 +333,111 @@ fn g5() -> Vec<Case> {
     out
 }
 
+/// G6: where `super` may sit.  The receiver handed to the superclass's method is the first parameter of
+/// the enclosing *method* - `self` in an instance method or constructor, `Self` in a static method -
+/// however deeply the expression is nested in lambdas and named functions inside that method, and wherever
+/// the class itself was declared (top level, a function, an instance / static method of another class, a
+/// lambda inside such a method).
+fn g6() -> Vec<Case> {
+    let mut out = Vec::new();
+    let base = || {
+        class_stmt(
+            "Base",
+            None,
+            None,
+            vec![
+                method(FnKind::Ctor, "make", &["tag"], vec![expr_stmt(set(Expr::SelfRef, "tag", var("tag")))]),
+                method(FnKind::Static, "who", &[], vec![ret(Expr::Interp(vec![Part::Lit("Base.who through ".into()), Part::Expr(Expr::CapSelf)]))]),
+                method(FnKind::Method, "name", &[], vec![ret(Expr::Interp(vec![Part::Lit("Base.name of ".into()), Part::Expr(call(var("type"), vec![Expr::SelfRef])), Part::Lit(" tagged ".into()), Part::Expr(get(Expr::SelfRef, "tag"))]))]),
+            ],
+        )
+    };
+    // the expression, wrapped `nest` times; returns the statements of the method body
+    fn nested(nest: usize, e: Expr) -> Vec<Stmt> {
+        match nest {
+            0 => vec![ret(e)],
+            1 => vec![var_stmt("l", lambda_expr(&[], e)), ret(call(var("l"), vec![]))],
+            2 => vec![fn_stmt(func("inner", &[], vec![ret(e)])), ret(call(var("inner"), vec![]))],
+            3 => vec![var_stmt("l", lambda_expr(&[], lambda_expr(&[], e))), ret(call(call(var("l"), vec![]), vec![]))],
+            // the function escapes and is called after the method returned
+            _ => vec![ret(lambda_expr(&[], e))],
+        }
+    }
+    for declared_in in 0..5 {
+        for nest in 0..5 {
+            let late = |e: Expr| if nest == 4 { call(e, vec![]) } else { e };
+            let derived = class_stmt(
+                "Derived",
+                Some("Base"),
+                None,
+                vec![
+                    method(FnKind::Ctor, "make", &["tag"], vec![expr_stmt(Expr::SuperInvoke("make".into(), vec![bin(BinOp::Add, var("tag"), s("!"))]))]),
+                    method(FnKind::Static, "who", &[], nested(nest, bin(BinOp::Add, s("Derived.who > "), Expr::SuperInvoke("who".into(), vec![])))),
+                    method(FnKind::Static, "who_value", &[], nested(nest, call(Expr::SuperGet("who".into()), vec![]))),
+                    method(FnKind::Static, "factory", &["tag"], nested(nest, Expr::SuperInvoke("make".into(), vec![var("tag")]))),
+                    method(FnKind::Method, "name", &[], nested(nest, bin(BinOp::Add, s("Derived.name > "), Expr::SuperInvoke("name".into(), vec![])))),
+                    method(FnKind::Method, "who_from_instance", &[], nested(nest, Expr::SuperInvoke("who".into(), vec![]))),
+                ],
+            );
+            let sub = class_stmt("Sub", Some("Derived"), None, vec![]);
+            let mut prog = vec![base()];
+            match declared_in {
+                0 => {
+                    prog.push(derived);
+                    prog.push(sub);
+                }
+                1 => {
+                    prog.push(fn_stmt(func("mk", &[], vec![derived, sub, ret(Expr::VecLit(vec![var("Derived"), var("Sub")]))])));
+                    prog.push(var_stmt("pair", call(var("mk"), vec![])));
+                    prog.push(var_stmt("Derived", index(var("pair"), num(0.0))));
+                    prog.push(var_stmt("Sub", index(var("pair"), num(1.0))));
+                }
+                _ => {
+                    let body = vec![derived, sub, ret(Expr::VecLit(vec![var("Derived"), var("Sub")]))];
+                    let (kind, body) = match declared_in {
+                        2 => (FnKind::Method, body),
+                        3 => (FnKind::Static, body),
+                        _ => (FnKind::Method, vec![var_stmt("mk", lambda_block(&[], body)), ret(call(var("mk"), vec![]))]),
+                    };
+                    prog.push(class_stmt("Workshop", None, Some("new"), vec![method(kind, "build", &[], body)]));
+                    prog.push(var_stmt("pair", invoke(if declared_in == 3 { var("Workshop") } else { invoke(var("Workshop"), "new", vec![]) }, "build", vec![])));
+                    prog.push(var_stmt("Derived", index(var("pair"), num(0.0))));
+                    prog.push(var_stmt("Sub", index(var("pair"), num(1.0))));
+                }
+            }
+            prog.push(var_stmt("d", Expr::Nil));
+            prog.push(var_stmt("u", Expr::Nil));
+            prog.push(st(StmtKind::Try(vec![expr_stmt(assign("d", invoke(var("Derived"), "make", vec![s("d")]))), expr_stmt(assign("u", invoke(var("Sub"), "make", vec![s("u")])))], Some(("err".into(), vec![print_stmt(call(var("type"), vec![var("err")]))])), None)));
+            for recv in ["Derived", "Sub", "d", "u"] {
+                prog.push(probe(late(invoke(var(recv), "who", vec![]))));
+                prog.push(probe(late(invoke(var(recv), "who_value", vec![]))));
+                prog.push(probe(get(late(invoke(var(recv), "factory", vec![s("made")])), "tag")));
+                prog.push(probe(call(var("type"), vec![late(invoke(var(recv), "factory", vec![s("made")]))])));
+            }
+            for recv in ["d", "u"] {
+                prog.push(probe(late(invoke(var(recv), "name", vec![]))));
+                prog.push(probe(late(invoke(var(recv), "who_from_instance", vec![]))));
+            }
+            out.push(Case::new("G6_super_receiver_wherever_it_sits", prog));
+        }
+    }
+    out
+}
+
 pub fn cases_for_c04(thorough: bool) -> Vec<Case> {
-    g1(thorough).into_iter().chain(g2()).chain(g3()).chain(g5()).collect()
+    g1(thorough).into_iter().chain(g2()).chain(g3()).chain(g5()).chain(g6()).collect()
 }
 
 pub fn run(ctx: &Ctx) -> Report {
     let mut report = Report::new();
     let thorough = ctx.thorough();
-    let cases = g1(thorough).into_iter().chain(g2()).chain(g3()).chain(g4()).chain(g5());
+    let cases = g1(thorough).into_iter().chain(g2()).chain(g3()).chain(g4()).chain(g5()).chain(g6());
     let hooks = Hooks { attribute: &|_c, _m, _o, _mm| None, nontrivial: &|_c, m| m.out.len() >= 4 || matches!(m.outcome, Outcome::Uncaught(_)), fuel: 2_000_000 };
     let stats = mcheck::run(ctx, cases, &hooks);
     mcheck::fill_report(
         &mut report,
         &stats,
-        "G1: every hierarchy of depth 1-3 where each class independently has method m absent / plain / overriding through super.m() / through super.m taken as a value / through super.m() inside a lambda nested in the method, optionally n calling self.m(), and one of four constructor forms; probed with calls, bound values, wrong arity, unknown members, fields shadowing methods, type and derives on instances of the two most derived classes. G2: static methods and Self through class, instance and subclass instance. G3: classes in local scopes, captured variables, rebound superclass names. G4: every non-class value as superclass; deriving built-in error classes. G5: construction, arity, invoke == get-then-call. non-trivial = at least four observations.",
+        "G1: every hierarchy of depth 1-3 where each class independently has method m absent / plain / overriding through super.m() / through super.m taken as a value / through super.m() inside a lambda nested in the method, optionally n calling self.m(), and one of four constructor forms; probed with calls, bound values, wrong arity, unknown members, fields shadowing methods, type and derives on instances of the two most derived classes. G2: static methods and Self through class, instance and subclass instance. G3: classes in local scopes, captured variables, rebound superclass names. G4: every non-class value as superclass; deriving built-in error classes. G5: construction, arity, invoke == get-then-call. G6: the receiver of super in instance, static and constructor methods under 5 nestings of the expression and 5 places the class can be declared in, through class, subclass and instances. non-trivial = at least four observations.",
         json!({"hierarchy_depth": 3, "per_class_choices": 40}),
     );
     report.assumptions = vec!["static methods and constructors are looked up on the class they were defined in and on instances, not through subclasses' class objects (Appendix A)".into()];
